@@ -578,3 +578,54 @@ def check_noise_models_multi(cfg, rng, viol, stats, sig_base):
         if dev > 1e-10:
             viol.append({"oracle": "I1_depolarized_formula", "what": f"depolarised {kind} {name} on {num} {mode}(s), p={para['error_rate']}: deviates from (1-p)*ideal + p*maximally-mixed by {dev:.2e}",
                          "detail": {"p": para["error_rate"]}, "signature": dict(sig_base, oracle="I1_depolarized_formula", type=arr["type"], system=f"{num}{mode}")})
+
+
+def check_stored_equals_returned(cfg, run, viol, stats, sig_base):
+    """H8: what the run stored is what it returned - every case pickle holds the in-memory result of that (sample, case), and
+    the rows of every check_result.csv are the returned results' verdicts, in order."""
+    import csv
+
+    oc = stats["oracle_checks"]
+    view = run["files"]["view"]
+    by_key = {}
+    for r in run["results"]:
+        ix = r["result_index"]
+        by_key[(ix["sample_index"], ix["case_index"])] = r
+    for rel, item in sorted(view.items()):
+        if item["kind"] == "SimulationResult":
+            oc["H8_stored_equals_returned"] = oc.get("H8_stored_equals_returned", 0) + 1
+            stored = item["value"]
+            ix = stored["result_index"]
+            key = (ix["sample_index"], ix["case_index"])
+            want_name = f"{ix['test_setting_index']}/{ix['sample_index']}/case_{ix['case_index']}_result.pickle"
+            if rel.replace(os.sep, "/") != want_name or key not in by_key:
+                viol.append({"oracle": "H8_stored_equals_returned", "what": f"file {rel} holds the result with index {ix}", "detail": {"file": rel, "index": ix}, "signature": dict(sig_base, oracle="H8_stored_equals_returned", what="file_name")})
+                return
+            d = first_diff(by_key[key], stored, rel)
+            if d:
+                viol.append({"oracle": "H8_stored_equals_returned", "what": f"the stored result {rel} differs from the returned one at {d[0]} ({d[1]}, max abs diff {d[2]})", "detail": {"file": rel, "field": d[0]},
+                             "signature": dict(sig_base, oracle="H8_stored_equals_returned", what="pickle")})
+                return
+    for rel, item in sorted(view.items()):
+        if not rel.endswith("check_result.csv") or item["kind"] != "text":
+            continue
+        oc["H8_stored_equals_returned"] = oc.get("H8_stored_equals_returned", 0) + 1
+        rows = list(csv.DictReader(io.StringIO(item["value"])))
+        parts = rel.replace(os.sep, "/").split("/")
+        if len(parts) == 1 or len(parts) == 2:
+            want = list(run["results"])
+        else:
+            want = [r for r in run["results"] if str(r["result_index"]["sample_index"]) == parts[1]]
+        if len(rows) != len(want):
+            viol.append({"oracle": "H8_stored_equals_returned", "what": f"{rel} has {len(rows)} rows for {len(want)} returned results", "detail": {"file": rel}, "signature": dict(sig_base, oracle="H8_stored_equals_returned", what="csv_rows")})
+            return
+        for k, (row, r) in enumerate(zip(rows, want)):
+            ix = r["result_index"]
+            exp = {"test_setting_index": str(ix["test_setting_index"]), "sample_index": str(ix["sample_index"]), "case_index": str(ix["case_index"]), "name": r["name"], "total_result": str(r["check"]["total"])}
+            for cname, cres in r["check"]["items"]:
+                exp[cname] = str(cres)
+            bad = [c for c, v in exp.items() if row.get(c) != v]
+            if bad:
+                viol.append({"oracle": "H8_stored_equals_returned", "what": f"{rel} row {k}: column {bad[0]} is {row.get(bad[0])!r}, the returned result says {exp[bad[0]]!r}", "detail": {"file": rel, "row": k, "columns": bad},
+                             "signature": dict(sig_base, oracle="H8_stored_equals_returned", what="csv_value")})
+                return
